@@ -16,19 +16,28 @@ CONSTANTS RequireLocked   \* TRUE: events logged inside critical sections must c
 TraceLog == ndJsonDeserialize("trace.ndjson")
 
 VARIABLES l,      \* position of the next event
-          cnt,    \* true event counts since the BrokerContext was created (C19)
-          ips     \* proxy type -> set of addresses seen since the BrokerContext was created
-tvars == <<vars, l, cnt, ips>>
+          cnt,    \* true event counts of the current measurement period (metrics log, C19)
+          pcnt,   \* Prometheus label set (as text) -> true event count since the BrokerContext was created
+          ips,    \* proxy type -> set of addresses seen in the current measurement period
+          mok     \* the counts above are known (FALSE after an unexplained scenario, until the next new BrokerContext)
+tvars == <<vars, l, cnt, pcnt, ips, mok>>
 
 Ev == TraceLog[l]
 Is(e) == l <= Len(TraceLog) /\ TraceLog[l].ev = e
-Adv == l' = l + 1
+Adv == l' = l + 1 /\ (IF TraceLog[l].ev = "reset" THEN TRUE ELSE UNCHANGED mok)
 LockOK == RequireLocked => Ev.locked = TRUE
 
-CntZero == [idle |-> 0, denied |-> 0, deniedR |-> 0, deniedU |-> 0, matched |-> 0, withRelay |-> 0]
-Keep == UNCHANGED <<cnt, ips>>
+CntZero == [idle |-> 0, denied |-> 0, deniedR |-> 0, deniedU |-> 0, matched |-> 0, withRelay |-> 0, withoutRelay |-> 0]
+Keep == UNCHANGED <<cnt, pcnt, ips>>
+Empty == [x \in {} |-> 0]
+Bump(f, k) == IF k \in DOMAIN f THEN [f EXCEPT ![k] = @ + 1] ELSE f @@ (k :> 1)
+PutIn(f, k, x) == IF k \in DOMAIN f THEN [f EXCEPT ![k] = @ \cup {x}] ELSE f @@ (k :> {x})
+KnownTypes == {"standalone", "webext", "badge", "iptproxy"}
+ProxyPollKey(nat, status) == "prom:rounded_proxy_poll_total{nat=" \o nat \o ",status=" \o status \o "}"
+ClientPollKey(nat, status) == "prom:rounded_client_poll_total{nat=" \o nat \o ",status=" \o status \o "}"
+RelayKey(with, nat, type) == "prom:rounded_proxy_poll_" \o (IF with THEN "with" ELSE "without") \o "_relay_url_extension_total{nat=" \o nat \o ",type=" \o type \o "}"
 
-TInit == Init /\ l = 1 /\ cnt = CntZero /\ ips = <<>> /\ TLCSet(1, 1)
+TInit == Init /\ l = 1 /\ cnt = CntZero /\ pcnt = Empty /\ ips = Empty /\ mok = TRUE /\ TLCSet(1, 1)
 
 TReset ==
   /\ Is("reset")
@@ -42,13 +51,18 @@ TReset ==
   /\ asnow' = [a \in Answers |-> None] /\ abuf' = [p \in Proxies |-> None]
   /\ ptimer' = [p \in Proxies |-> -1] /\ ctimer' = [c \in Clients |-> -1]
   /\ presp' = [p \in Proxies |-> None] /\ cresp' = [c \in Clients |-> None] /\ aresp' = [a \in Answers |-> None]
-  /\ (IF Ev.fresh THEN cnt' = CntZero /\ ips' = <<>> ELSE Keep)
+  /\ (IF Ev.fresh THEN cnt' = CntZero /\ pcnt' = Empty /\ ips' = Empty
+      ELSE IF Ev.rollover THEN cnt' = CntZero /\ ips' = Empty /\ UNCHANGED pcnt
+      ELSE Keep)
+  /\ mok' = (IF Ev.fresh THEN TRUE ELSE IF Ev.resync THEN FALSE ELSE mok)
   /\ Adv
 
 TAdd ==
   /\ Is("add") /\ LockOK
   /\ ProxyRegister(Ev.p, Ev.nat, Ev.load)
-  /\ cnt' = [cnt EXCEPT !.withRelay = @ + 1] /\ UNCHANGED ips
+  /\ cnt' = (IF Ev.relayext THEN [cnt EXCEPT !.withRelay = @ + 1] ELSE [cnt EXCEPT !.withoutRelay = @ + 1])
+  /\ pcnt' = Bump(pcnt, RelayKey(Ev.relayext, Ev.nat, Ev.ptype))
+  /\ ips' = PutIn(ips, Ev.ptype, Ev.addr)
   /\ Adv
 
 (* the client's pop under the lock: the logged heap root is what it gets *)
@@ -58,10 +72,11 @@ TMatch ==
   /\ Eff(Ev.natwire) = Ev.nat
   /\ claimed'[Ev.c] = (IF Ev.len = 0 THEN None ELSE Ev.root)
   /\ (IF Ev.len = 0
-      THEN cnt' = [cnt EXCEPT !.denied = @ + 1,
-                              !.deniedU = @ + (IF Ev.nat = "unrestricted" THEN 1 ELSE 0),
-                              !.deniedR = @ + (IF Ev.nat = "unrestricted" THEN 0 ELSE 1)]
-      ELSE UNCHANGED cnt)
+      THEN /\ cnt' = [cnt EXCEPT !.denied = @ + 1,
+                                 !.deniedU = @ + (IF Ev.nat = "unrestricted" THEN 1 ELSE 0),
+                                 !.deniedR = @ + (IF Ev.nat = "unrestricted" THEN 0 ELSE 1)]
+           /\ pcnt' = Bump(pcnt, ClientPollKey(Ev.nat, "denied"))
+      ELSE UNCHANGED <<cnt, pcnt>>)
   /\ UNCHANGED ips /\ Adv
 
 TOfferGate == Is("c.offer") /\ cpc[Ev.c] = "sendOffer" /\ claimed[Ev.c] = Ev.p /\ UNCHANGED vars /\ Keep /\ Adv
@@ -107,7 +122,9 @@ TPResp ==
   /\ (Ev.kind = "offer" => /\ presp'[Ev.p].client = Ev.client
                            /\ presp'[Ev.p].nat = Ev.nat
                            /\ presp'[Ev.p].relay = Ev.relay)
-  /\ cnt' = [cnt EXCEPT !.idle = @ + (IF Ev.kind = "nomatch" THEN 1 ELSE 0)] /\ UNCHANGED ips
+  /\ cnt' = [cnt EXCEPT !.idle = @ + (IF Ev.kind = "nomatch" THEN 1 ELSE 0)]
+  /\ pcnt' = Bump(pcnt, ProxyPollKey(pnat[Ev.p], IF Ev.kind = "nomatch" THEN "idle" ELSE "matched"))
+  /\ UNCHANGED ips
   /\ Adv
 
 (* The hooks "a.sent" / "a.dropped" run after the non-blocking send, when its
@@ -115,10 +132,10 @@ TPResp ==
    operation cannot be logged at its linearization point).  The send itself is
    therefore a silent step between the records "a.send" (start) and "a.sent" /
    "a.dropped" (end, with the outcome). *)
-TSilentSend == D2Fixed /\ (\E a \in Answers : AnswerSend(a)) /\ l' = l /\ Keep
+TSilentSend == D2Fixed /\ (\E a \in Answers : AnswerSend(a)) /\ l' = l /\ Keep /\ UNCHANGED mok
 (* Likewise the client's receive from the answer channel is visible (the
    buffer is empty again) before its "c.answer" record is written. *)
-TSilentGet == D2Fixed /\ (\E c \in Clients : ClientGetAnswer(c)) /\ l' = l /\ Keep
+TSilentGet == D2Fixed /\ (\E c \in Clients : ClientGetAnswer(c)) /\ l' = l /\ Keep /\ UNCHANGED mok
 
 TCAnswer ==
   /\ Is("c.answer")
@@ -126,7 +143,9 @@ TCAnswer ==
      \/ (~D2Fixed /\ \E a \in Answers : AnswerRendezvous(a, Ev.c))
      \/ (~D2Fixed /\ cpc[Ev.c] = "cleanup" /\ cresp[Ev.c].kind = "answer" /\ UNCHANGED vars)
   /\ cresp'[Ev.c].kind = "answer" /\ cresp'[Ev.c].answer = Ev.a
-  /\ cnt' = [cnt EXCEPT !.matched = @ + 1] /\ UNCHANGED ips
+  /\ cnt' = [cnt EXCEPT !.matched = @ + 1]
+  /\ pcnt' = Bump(pcnt, ClientPollKey(EffNat(Ev.c), "matched"))
+  /\ UNCHANGED ips
   /\ Adv
 TCTimeout == Is("c.timeout") /\ ClientTimerFire(Ev.c) /\ Keep /\ Adv
 TCPre == Is("c.precleanup") /\ cpc[Ev.c] = "cleanup" /\ claimed[Ev.c] = Ev.p /\ UNCHANGED vars /\ Keep /\ Adv
@@ -162,8 +181,7 @@ TAResp == Is("a.resp") /\ apc[Ev.a] = "done" /\ aresp[Ev.a].kind = Ev.kind /\ UN
 TTick == Is("tick") /\ (Tick \/ (~(\E p \in Proxies : ptimer[p] >= 0) /\ ~(\E c \in Clients : ctimer[c] >= 0) /\ UNCHANGED vars)) /\ Keep /\ Adv
 
 Ceil8(n) == ((n + 7) \div 8) * 8
-(* End of a scenario: everything returned, nothing left behind (C04), and the
-   published counts are the true counts rounded up to 8 (C19). *)
+(* End of a scenario: everything returned, nothing left behind (C04). *)
 TEnd ==
   /\ Is("end")
   /\ Ev.pending = <<>>
@@ -172,10 +190,37 @@ TEnd ==
   /\ \A i \in 1..Len(Ev.fresh) : Ev.fresh[i] = "noproxies"
   /\ UNCHANGED vars /\ Keep /\ Adv
 
+(* Published figures (scraped before the two fresh probe polls of the rig,
+   which are then added to the true counts): every count is the true count
+   rounded up to 8; per-type address figures count each address once (C19). *)
+CardOf(t) == IF t \in DOMAIN ips THEN Cardinality(ips[t]) ELSE 0
+RECURSIVE SumCards(_)
+SumCards(S) == IF S = {} THEN 0 ELSE LET t == CHOOSE x \in S : TRUE IN Cardinality(ips[t]) + SumCards(S \ {t})
+MetricsRight(m) ==
+  /\ m["log:snowflake-idle-count"] = Ceil8(cnt.idle)
+  /\ m["log:client-denied-count"] = Ceil8(cnt.denied)
+  /\ m["log:client-restricted-denied-count"] = Ceil8(cnt.deniedR)
+  /\ m["log:client-unrestricted-denied-count"] = Ceil8(cnt.deniedU)
+  /\ m["log:client-snowflake-match-count"] = Ceil8(cnt.matched)
+  /\ m["log:snowflake-proxy-poll-with-relay-url-count"] = Ceil8(cnt.withRelay)
+  /\ m["log:snowflake-proxy-poll-without-relay-url-count"] = Ceil8(cnt.withoutRelay)
+  /\ m["log:snowflake-proxy-rejected-for-relay-url-count"] = 0
+  /\ \A k \in DOMAIN pcnt : k \in DOMAIN m /\ m[k] = Ceil8(pcnt[k])
+  /\ \A t \in KnownTypes : m["log:snowflake-ips-" \o t] = CardOf(t)
+  /\ m["log:snowflake-ips-total"] = SumCards(DOMAIN ips)
+TMetrics ==
+  /\ Is("metrics")
+  /\ (mok => MetricsRight(Ev.m))
+  /\ (IF Ev.nfresh = 2
+      THEN /\ cnt' = [cnt EXCEPT !.denied = @ + 2, !.deniedR = @ + 1, !.deniedU = @ + 1]
+           /\ pcnt' = Bump(Bump(pcnt, ClientPollKey("unknown", "denied")), ClientPollKey("unrestricted", "denied"))
+      ELSE UNCHANGED <<cnt, pcnt>>)
+  /\ UNCHANGED vars /\ UNCHANGED ips /\ Adv
+
 TNext ==
   \/ TReset \/ TAdd \/ TMatch \/ TOfferGate \/ TSent \/ TWOffer \/ TForwarded \/ TGot
   \/ TWTimeout \/ TWLocked \/ TWClaimed \/ TPResp \/ TCAnswer \/ TCTimeout \/ TCPre \/ TCCleanup \/ TCResp
-  \/ TALookup \/ TASendGate \/ TSilentSend \/ TSilentGet \/ TASent \/ TADropped \/ TAResp \/ TTick \/ TEnd
+  \/ TALookup \/ TASendGate \/ TSilentSend \/ TSilentGet \/ TASent \/ TADropped \/ TAResp \/ TTick \/ TEnd \/ TMetrics
 
 TSpec == TInit /\ [][TNext]_tvars
 
